@@ -480,6 +480,154 @@ def sp_lm_of(ex, e, st):
     return keys
 
 
+def _lmemb(d, v, w):
+    """w is one of the (at most four) entries of the list d[v]"""
+    return z3.Or(*[z3.And(iv(j) < d.vlen[v], d.varr[v][iv(j)] == w) for j in range(4)])
+
+
+def sp_lmemb(ex, e, st):
+    """lmemb(d, v, w): w is an entry of d[v] (lists of a latter map hold at most four entries)."""
+    return _lmemb(_dict(ex.ev(e.args[0], st)), _int(ex.ev(e.args[1], st)), _int(ex.ev(e.args[2], st)))
+
+
+def sp_lm_small(ex, e, st):
+    """lm_small(d): every list of the map has between 0 and 4 entries (a de Bruijn vertex has four shift successors)."""
+    d = _dict(ex.ev(e.args[0], st))
+    v = z3.Int("v#lms")
+    from pyvc.sym import qforall
+    return qforall([v], z3.Implies(d.has[v], z3.And(0 <= d.vlen[v], d.vlen[v] <= 4)), [d.has[v]])
+
+
+def sp_lm_sub(ex, e, st):
+    """lm_sub(d, d0): every key of d is a key of d0, its list has at most four entries and each of them is an entry of d0's list of that key."""
+    d, d0 = _dict(ex.ev(e.args[0], st)), _dict(ex.ev(e.args[1], st))
+    v = z3.Int("v#lsub")
+    from pyvc.sym import qforall
+    body = z3.And(d0.has[v], 0 <= d.vlen[v], d.vlen[v] <= 4, *[z3.Implies(iv(i) < d.vlen[v], _lmemb(d0, v, d.varr[v][iv(i)])) for i in range(4)])
+    return qforall([v], z3.Implies(d.has[v], body), [d.has[v]])
+
+
+def sp_lm_closed(ex, e, st):
+    """lm_closed(d, t): every key of d lists at least t vertices and every vertex it lists is a key of d."""
+    d, t = _dict(ex.ev(e.args[0], st)), _int(ex.ev(e.args[1], st))
+    v = z3.Int("v#lcl")
+    from pyvc.sym import qforall
+    body = z3.And(d.vlen[v] >= t, *[z3.Implies(iv(i) < d.vlen[v], d.has[d.varr[v][iv(i)]]) for i in range(4)])
+    return qforall([v], z3.Implies(d.has[v], body), [d.has[v]])
+
+
+def _ml(v):
+    from pyvc.sym import MemList
+    if not isinstance(v, MemList):
+        from pyvc.engine import Unsupported
+        raise Unsupported(f"contract expression expects an append/membership-only list, the code now has {v!r} there (sidecar no longer binds)")
+    return v.chi
+
+
+def sp_aupd(ex, e, st):
+    """aupd(a, j, v): the raw (ghost) array a with entry j replaced by v."""
+    return z3.Store(ex.ev(e.args[0], st), _int(ex.ev(e.args[1], st)), _int(ex.ev(e.args[2], st)))
+
+
+def sp_lmlen(ex, e, st):
+    """lmlen(d, v): length of the list d[v] (meaningful for keys)."""
+    return _dict(ex.ev(e.args[0], st)).vlen[_int(ex.ev(e.args[1], st))]
+
+
+def sp_ml_sound(ex, e, st):
+    """ml_sound(l, d, t, big): every member of the list l is a key of d whose list has >= t entries (big) / fewer than t entries (not big)."""
+    chi, d, t = _ml(ex.ev(e.args[0], st)), _dict(ex.ev(e.args[1], st)), _int(ex.ev(e.args[2], st))
+    big = isinstance(e.args[3], ast.Constant) and e.args[3].value is True
+    x = z3.Int("x#mls")
+    from pyvc.sym import qforall
+    return qforall([x], z3.Implies(chi[x], z3.And(d.has[x], d.vlen[x] >= t if big else d.vlen[x] < t)), [chi[x]])
+
+
+def sp_lm_indexed(ex, e, st):
+    """lm_indexed(d, pos): the insertion order of d lists exactly its keys, each once, and pos[v] is the position of key v (the representation invariant of a
+    Python dict with the position function made explicit)."""
+    d, pos = _dict(ex.ev(e.args[0], st)), ex.ev(e.args[1], st)
+    v, i = z3.Int("v#lix"), z3.Int("i#lix")
+    o = d.order
+    from pyvc.sym import qforall
+    return z3.And(o.n >= 0,
+                  qforall([v], z3.Implies(d.has[v], z3.And(0 <= pos[v], pos[v] < o.n, o.at(pos[v]) == v)), [d.has[v]]),
+                  qforall([i], z3.Implies(z3.And(0 <= i, i < o.n), z3.And(d.has[o.at(i)], pos[o.at(i)] == i)), [o.at(i)]))
+
+
+def sp_lm_classified(ex, e, st):
+    """lm_classified(d, pos, n, r, s): every key listed before position n is a member of r or of s."""
+    d, pos, n = _dict(ex.ev(e.args[0], st)), ex.ev(e.args[1], st), _int(ex.ev(e.args[2], st))
+    r, s_ = _ml(ex.ev(e.args[3], st)), _ml(ex.ev(e.args[4], st))
+    v = z3.Int("v#lcf")
+    from pyvc.sym import qforall
+    return qforall([v], z3.Implies(z3.And(d.has[v], pos[v] < n), z3.Or(r[v], s_[v])), [d.has[v]])
+
+
+def sp_lm_processed(ex, e, st):
+    """lm_processed(d, pos, n, r, new): every key of d listed before position n that is not a member of r is a key of new; no member of r is."""
+    d, pos, n = _dict(ex.ev(e.args[0], st)), ex.ev(e.args[1], st), _int(ex.ev(e.args[2], st))
+    r, new = _ml(ex.ev(e.args[3], st)), _dict(ex.ev(e.args[4], st))
+    v, x = z3.Int("v#lpr"), z3.Int("x#lpr")
+    from pyvc.sym import qforall
+    return z3.And(qforall([v], z3.Implies(z3.And(d.has[v], pos[v] < n, z3.Not(r[v])), new.has[v]), [d.has[v]]),
+                  qforall([x], z3.Implies(new.has[x], z3.Not(r[x])), [new.has[x]]))
+
+
+def sp_lm_kept_big(ex, e, st):
+    """lm_kept_big(new, d, t): every key of new has at least t entries in d."""
+    new, d, t = _dict(ex.ev(e.args[0], st)), _dict(ex.ev(e.args[1], st)), _int(ex.ev(e.args[2], st))
+    v = z3.Int("v#lkb")
+    from pyvc.sym import qforall
+    return qforall([v], z3.Implies(new.has[v], d.vlen[v] >= t), [new.has[v]])
+
+
+def sp_lm_full(ex, e, st):
+    """lm_full(new, d, r, s): no list of new lost an entry: same length as in d and every entry is a member of s and not of r."""
+    new, d = _dict(ex.ev(e.args[0], st)), _dict(ex.ev(e.args[1], st))
+    r, s_ = _ml(ex.ev(e.args[2], st)), _ml(ex.ev(e.args[3], st))
+    v = z3.Int("v#lfu")
+    from pyvc.sym import qforall
+    body = z3.And(new.vlen[v] == d.vlen[v], *[z3.Implies(iv(i) < new.vlen[v], z3.And(s_[new.varr[v][iv(i)]], z3.Not(r[new.varr[v][iv(i)]]))) for i in range(4)])
+    return qforall([v], z3.Implies(new.has[v], body), [new.has[v]])
+
+
+def _cnt_s(d, v, S):
+    return z3.Sum([z3.If(z3.And(iv(i) < d.vlen[v], S[d.varr[v][iv(i)]] != 0), 1, 0) for i in range(4)])
+
+
+def sp_lm_sclosed(ex, e, st):
+    """lm_sclosed(d, S, t): the vertex set S (ghost array, member = non-zero) lies inside the keys of d and every member lists at least t members of S
+    (entries counted as the code counts them, by list position)."""
+    d, S, t = _dict(ex.ev(e.args[0], st)), ex.ev(e.args[1], st), _int(ex.ev(e.args[2], st))
+    v = z3.Int("v#lsc")
+    from pyvc.sym import qforall
+    return qforall([v], z3.Implies(S[v] != 0, z3.And(d.has[v], _cnt_s(d, v, S) >= t)), [S[v]])
+
+
+def sp_lm_skept(ex, e, st):
+    """lm_skept(d, pos, n, new, S, t): every member of S listed in d before position n is a key of new and still lists at least t members of S there."""
+    d, pos, n = _dict(ex.ev(e.args[0], st)), ex.ev(e.args[1], st), _int(ex.ev(e.args[2], st))
+    new, S, t = _dict(ex.ev(e.args[3], st)), ex.ev(e.args[4], st), _int(ex.ev(e.args[5], st))
+    v = z3.Int("v#lsk")
+    from pyvc.sym import qforall
+    return qforall([v], z3.Implies(z3.And(S[v] != 0, pos[v] < n), z3.And(new.has[v], _cnt_s(new, v, S) >= t)), [S[v]])
+
+
+def sp_ml_outside(ex, e, st):
+    """ml_outside(l, S): no member of the list l is a member of S."""
+    chi, S = _ml(ex.ev(e.args[0], st)), ex.ev(e.args[1], st)
+    x = z3.Int("x#mlo")
+    from pyvc.sym import qforall
+    return qforall([x], z3.Implies(chi[x], S[x] == 0), [chi[x]])
+
+
+def sp_scount(ex, e, st):
+    """scount(S, l, n): number of positions i < n (n <= 4) of the list l whose entry is a member of S."""
+    S, l, n = ex.ev(e.args[0], st), _seq(ex.ev(e.args[1], st)), _int(ex.ev(e.args[2], st))
+    return z3.Sum([z3.If(z3.And(iv(i) < n, S[l.at(iv(i))] != 0), 1, 0) for i in range(4)])
+
+
 def sp_occurs(ex, e, st):
     m, s_ = _seq(ex.ev(e.args[0], st)), _seq(ex.ev(e.args[1], st))
     return specz3.occ(m.arr, m.start, m.n, s_.arr, s_.start, s_.n)
@@ -792,7 +940,7 @@ def sp_accepts(ex, e, st):
 SPEC = {
     "forall": sp_forall, "forall_q": lambda ex, e, st: sp_forall(ex, e, st, expand=False), "exists": lambda ex, e, st: sp_forall(ex, e, st, exists=True), "implies": sp_implies, "old": sp_old,
     "digits": sp_digits, "val": sp_val, "dval": sp_dval, "val2": sp_val2, "canon": sp_canon, "ipow": sp_ipow, "dig": sp_dig,
-    "same": sp_same_seq, "upd": sp_upd, "accepts": sp_accepts, "haskey": sp_haskey, "order": sp_order, "sorted_positions": sp_sorted_positions, "lm_of": sp_lm_of, "comp": sp_comp, "chr_": sp_chr, "gc_window_ok": sp_gc_window_ok, "occurs": sp_occurs, "rc_code": sp_rc_code, "filter_ok": sp_filter_ok, "succ": sp_succ, "shuffled_row": sp_shuffled_row, "rng_is": sp_rng_is, "row_is": sp_row_is, "rdeg": sp_rdeg, "rarc": sp_rarc, "rdigit": sp_rdigit, "is_perm_row": sp_is_perm_row, "row": sp_row, "rwalkv": sp_rwalkv, "A2": sp_A2, "vt_matches": sp_vt_matches, "rwt": sp_rwt, "rlv": sp_rlv, "rhv": sp_rhv, "here": sp_here, "deg": sp_deg, "arc_of_digit": sp_arc_of_digit, "digit_of_arc": sp_digit_of_arc, "is_accessor": sp_is_accessor,
+    "same": sp_same_seq, "upd": sp_upd, "accepts": sp_accepts, "haskey": sp_haskey, "order": sp_order, "sorted_positions": sp_sorted_positions, "lm_of": sp_lm_of, "lmemb": sp_lmemb, "lm_small": sp_lm_small, "lm_sub": sp_lm_sub, "lm_closed": sp_lm_closed, "aupd": sp_aupd, "lmlen": sp_lmlen, "ml_sound": sp_ml_sound, "lm_indexed": sp_lm_indexed, "lm_classified": sp_lm_classified, "lm_processed": sp_lm_processed, "lm_kept_big": sp_lm_kept_big, "lm_full": sp_lm_full, "lm_sclosed": sp_lm_sclosed, "lm_skept": sp_lm_skept, "ml_outside": sp_ml_outside, "scount": sp_scount, "comp": sp_comp, "chr_": sp_chr, "gc_window_ok": sp_gc_window_ok, "occurs": sp_occurs, "rc_code": sp_rc_code, "filter_ok": sp_filter_ok, "succ": sp_succ, "shuffled_row": sp_shuffled_row, "rng_is": sp_rng_is, "row_is": sp_row_is, "rdeg": sp_rdeg, "rarc": sp_rarc, "rdigit": sp_rdigit, "is_perm_row": sp_is_perm_row, "row": sp_row, "rwalkv": sp_rwalkv, "A2": sp_A2, "vt_matches": sp_vt_matches, "rwt": sp_rwt, "rlv": sp_rlv, "rhv": sp_rhv, "here": sp_here, "deg": sp_deg, "arc_of_digit": sp_arc_of_digit, "digit_of_arc": sp_digit_of_arc, "is_accessor": sp_is_accessor,
     "is_table": sp_is_table, "first": sp_first, "second": sp_second, "dec_step": sp_dec_step, "walkv": sp_walkv, "enc_step": sp_enc_step, "fast_step": sp_fast_step, "fast_cells": sp_fast_cells, "floc": sp_floc, "link": sp_link, "wt": sp_wt, "lv": sp_lv, "hv": sp_hv, "ascents": sp_ascents, "nsucc": sp_nsucc, "rsum": sp_rsum, "code": sp_code, "dnav": sp_dnav, "codes": sp_codes, "is_dna": sp_is_dna, "pv": sp_pv, "store": sp_store, "A": sp_A, "D": sp_D, "P": sp_P, "seq_is": sp_seq_is, "seq_is_cons": sp_seq_is_cons, "ite": sp_ite, "isnone": sp_isnone, "cnt": sp_cnt, "ssum": sp_ssum,
 }
 
